@@ -292,6 +292,12 @@ func nonNilErr(info *types.Info, body ast.Node, ret ast.Node, e ast.Expr) bool {
 		if v, ok := core.ObjOf(info, x).(*types.Var); ok && v.Pkg() != nil && v.Parent() == v.Pkg().Scope() {
 			return true // package-level sentinel error
 		}
+		// a local with a single definition stands for that definition (`e := errors.Trace(ErrX); ..; return nil, e`)
+		if id, isID := x.(*ast.Ident); isID {
+			if d := ValueOf(info, body, id); d != ast.Expr(id) && nonNilErr(info, body, ret, d) {
+				return true
+			}
+		}
 		return guardedNonNil(info, body, ret, x)
 	}
 	return false
@@ -687,4 +693,58 @@ func enclosingSwitch(root ast.Node, cc *ast.CaseClause) *ast.SwitchStmt {
 		return out == nil
 	})
 	return out
+}
+
+// ExpectAll records the instance counts confirmed on the pinned tree (in a
+// fixed order). A rule that produced fewer obligations than expected is
+// UNDECIDED twice: as instances/<rule> (core.Ctx.Expect), and under the rule
+// itself. The second record matters when the driver merges the views of the
+// normalisation pipeline: it adopts "this obligation does not arise on the
+// equivalent program, where the rule leaves nothing open" - which must not
+// happen when the rule is merely incomplete there because a recognition step
+// reported under another rule failed (a VIOLATION found on one view would be
+// dropped in favour of a view that never got as far as asking the question).
+func ExpectAll(c *core.Ctx, want map[string]int) {
+	rules := make([]string, 0, len(want))
+	for r := range want {
+		rules = append(rules, r)
+	}
+	sort.Strings(rules)
+	for _, r := range rules {
+		n := 0
+		for _, o := range c.Obs {
+			if o.Rule == r {
+				n++
+			}
+		}
+		c.Expect(r, want[r])
+		if n < want[r] {
+			c.Undecidedf(r, "instances", token.NoPos, "rule %s produced %d obligations on this view of the tree, %d on the pinned tree: obligations of the rule have not arisen here", r, n, want[r])
+		}
+	}
+}
+
+// GraphOf is cfgq.Of with an identity check. cfgq caches graphs per Program
+// under the ADDRESS of the declaration; the views of an Inliner are pinned to
+// the Program for that reason (NewInliner). Should a cached graph nevertheless
+// belong to another body - a declaration that was collected and whose address
+// was reused - it is not used: a graph of the wrong function silently answers
+// every path query with "no such path".
+func GraphOf(p *core.Program, fn *core.Fn) *cfgq.Graph {
+	g := cfgq.Of(p, fn)
+	if g != nil && g.Body != fn.Decl.Body {
+		g = cfgq.New(p.Fset, fn.Pkg.TypesInfo, fn.Decl.Body, cfgq.NR(p))
+		g.Prog = p
+	}
+	return g
+}
+
+// GraphOfLit is cfgq.OfLit with the same identity check.
+func GraphOfLit(p *core.Program, info *types.Info, lit *ast.FuncLit) *cfgq.Graph {
+	g := cfgq.OfLit(p, info, lit)
+	if g != nil && g.Body != lit.Body {
+		g = cfgq.New(p.Fset, info, lit.Body, cfgq.NR(p))
+		g.Prog = p
+	}
+	return g
 }
